@@ -111,6 +111,15 @@ class Frames:
             self.gbc[k] = ll.take()[0]
         return self.gbc[k]
 
+    def shb_frame(self, st):
+        if ("shb", st) not in self.gbc:
+            r, ll, _ = rs.make_router(st)
+            self._pv(r, 3000)
+            with rs.quiet():
+                r.gn_data_request(GNDataRequest(upper_protocol_entity=CommonNH.BTP_B, data=b"s", length=1))
+            self.gbc[("shb", st)] = ll.take()[0]
+        return self.gbc[("shb", st)]
+
     def reply_frames(self, d, n):
         """n distinct LS replies of station d answering a request of the ego station"""
         have = self.replies.setdefault(d, [])
@@ -162,6 +171,17 @@ class Run:
         mr = sc.get("mr", 1)
         old_timer = router_mod.Timer
         with rs.VClock(T0):
+            # frames of other stations are built before the scheduler starts (never inside a managed thread)
+            for th in sc["threads"]:
+                for op in th:
+                    if op[0] in ("cbfA", "gbcRx"):
+                        frames.gbc_frame(op[2])
+                    elif op[0] == "shbRx":
+                        frames.shb_frame(op[2])
+            if sc.get("warm"):
+                frames.gbc_frame(40)
+            for d in scenario_dests(sc):
+                frames.reply_frames(d, 3)
             with dsched.patched([router_mod, loct_mod]):
                 kw = dict(itsGnLocationServiceMaxRetrans=mr)
                 if sc.get("cbf", True):
@@ -172,6 +192,13 @@ class Run:
                 lat, lon, s_, h_ = pv_fields(0)
                 r.ego_position_vector = LongPositionVector(gn_addr=r.mib.itsGnLocalGnAddr, tst=now, latitude=lat,
                                                            longitude=lon, pai=True, s=s_, h=h_)
+                if sc.get("warm"):              # the source of the GBC frames is already known (fresh PV, own DPL)
+                    with rs.quiet():
+                        r.gn_data_indicate(frames.gbc_frame(40))
+                    ll.take()
+                    for t_ in list(r._cbf_buffer.values()):
+                        t_.cancel()
+                    r._cbf_buffer.clear()
                 if sc.get("nolock"):            # self-test hook of the HARNESS only: emulate a dropped `with`
                     setattr(r, sc["nolock"], dsched.NoLock())
                 s = dsched.DSched(policy, line_files=FILES, opcode_codes=opcode_codes(), max_steps=max_steps)
@@ -260,6 +287,9 @@ class Run:
                         packet_transport_type=PacketTransportType(header_type=HeaderType.GEOUNICAST,
                                                                   header_subtype=HeaderSubType.UNSPECIFIED),
                         destination=rs.gn_addr(op[3])))
+                elif kind == "shbRx":
+                    s.log("rx_other", op[2])
+                    r.gn_data_indicate(fr.shb_frame(op[2]))
                 elif kind == "lsR":
                     s.log("lsR_enter", op[2])
                     r.gn_data_indicate(next(reply_iter[op[2]]))
@@ -367,6 +397,16 @@ class Run:
                         bad.append(f"unicast request {ref} sent {sent_req[ref]} times")
                     if ref in buffered and buffered[ref] not in replied:
                         bad.append(f"buffered unicast request {ref} sent before any reply from {buffered[ref]}")
+        # a GBC (source, SN) delivered by gn_data_indicate several times must pass duplicate detection once
+        n_rx = {}
+        for th in sc["threads"]:
+            for op in th:
+                if op[0] == "gbcRx":
+                    n_rx[op[2]] = n_rx.get(op[2], 0) + 1
+        direct = {op[2] for th in sc["threads"] for op in th if op[0] == "cbfA"}
+        for k, n in n_rx.items():
+            if k not in direct and enter.get(k, 0) > 1:
+                bad.append(f"DPL-RACE: GBC {k} received {n}x passed duplicate detection {enter[k]}x (buffered/forwarded twice)")
         # buffered requests: still buffered, sent once, or dropped by a give-up (needs mr+1 timer expiries)
         still = {q.data[0] for v in r._ls_packet_buffers.values() for q in v}
         mr = sc.get("mr", 1)
@@ -383,6 +423,33 @@ class Run:
 # ------------------------------------------------------------------------------------------------ model side
 
 
+def classify(sc, bad):
+    """known-finding id a violating run falls under (None = not a known region)"""
+    rx_other = any(op[0] in ("shbRx", "gbcRx") for th in sc["threads"] for op in th)
+    if all(b.startswith("buffered request") and "lost" in b for b in bad) and rx_other:
+        return "C15-KF1"
+    if all(b.startswith("DPL-RACE") or b.startswith("CBF packet") for b in bad) and any(b.startswith("DPL-RACE") for b in bad) \
+            and not sc.get("warm"):
+        return "C15-KF2"
+    return None
+
+
+def detect_variants(frames):
+    """which variant of the code is under test (decided by running the sequential witnesses)"""
+    sc = {"name": "probe", "threads": [[["guc", 1, 1, 9], ["shbRx", 2, 60], ["guc", 3, 2, 9]]], "timer_depth": 0}
+    r = Run(sc, dsched.Replay([]), frames)
+    r.outcome()
+    purges = any("lost" in b for b in r.judge())
+    sc2 = {"name": "probe2", "threads": [[["guc", 1, 1, 9], ["guc", 2, 2, 9]]], "timer_depth": 0}
+    r2 = Run(sc2, dsched.Replay([]), frames)
+    ls_fixed = len(r2.r._ls_packet_buffers.get(rs.gn_addr(9), [])) == 2     # 2nd request queued behind the lookup
+    return {"loses_buffered_request": purges, "ls_order_fix": ls_fixed,
+            "cbf_discard": hasattr(router_mod.Router, "_cbf_discard")}
+
+
+VARIANT = {"cbf_discard": False, "ls_order_fix": True, "loses_buffered_request": False}
+
+
 def model_line(sc):
     """the scenario as a line for the Lean driver, with one potential timer thread per timer the code may start"""
     mr = sc.get("mr", 1)
@@ -397,13 +464,18 @@ def model_line(sc):
         toks = []
         for op in th:
             k = op[0]
+            if k == "shbRx":
+                # a frame of a third station: its only modelled effect is refresh_table, which may drop LocT entries
+                toks += [f"purge:{d}" for d in scenario_dests(sc)]
+                continue
             if k in ("sn", "shb", "gbc", "ego"):
                 toks.append(f"{k}:{op[1]}")
             elif k in ("cbfA", "gbcRx"):
-                toks.append(f"{k}:{op[1]}:{op[2]}")
+                kk = "gbcRxD" if (k == "gbcRx" and VARIANT["cbf_discard"]) else k
+                toks.append(f"{kk}:{op[1]}:{op[2]}")
                 extra.append([f"cbfF:{op[1] + 100}:{op[2]}:{op[1]}"])
             elif k == "guc":
-                toks.append(f"guc:{op[1]}:{op[2]}:{op[3]}")
+                toks.append(f"{'guc' if VARIANT['ls_order_fix'] else 'gucOld'}:{op[1]}:{op[2]}:{op[3]}")
                 src = op[1]
                 for lvl in range(depth):
                     extra.append([f"lsF:{op[1] + 100 * (lvl + 1)}:{op[3]}:{src}:{mr}"])
@@ -426,7 +498,10 @@ def scenarios(ctx):
         {"name": "ego-gbc", "threads": [[["ego", 5], ["gbc", 2]], [["gbc", 1]]]},
         {"name": "cbf-cancel", "threads": [[["cbfA", 1, 7]], [["cbfA", 2, 7]]]},
         {"name": "cbf-2keys", "threads": [[["cbfA", 1, 7]], [["cbfA", 2, 8], ["ego", 4]]]},
-        {"name": "gbc-rx", "threads": [[["gbcRx", 1, 7]], [["gbcRx", 2, 7]]]},
+        {"name": "gbc-rx", "threads": [[["gbcRx", 1, 7]], [["gbcRx", 2, 7]]], "warm": True},
+        {"name": "gbc-rx-fresh", "threads": [[["gbcRx", 1, 7]], [["gbcRx", 2, 7]]], "oracle_only": True},
+        {"name": "ls-purge", "threads": [[["guc", 1, 1, 9]], [["shbRx", 2, 60]], [["guc", 3, 2, 9]]], "timer_depth": 0,
+         "oracle_only_if_purging": True},
         {"name": "ls-2req", "threads": [[["guc", 1, 1, 9]], [["guc", 2, 2, 9]]], "timer_depth": 0},
         {"name": "ls-reply", "threads": [[["guc", 1, 1, 9]], [["lsR", 2, 9]]], "timer_depth": 1, "mr": 1},
     ]
@@ -473,7 +548,8 @@ def explore(ctx, sc, frames, bound, cap, n_pct, observed, model=True):
                 again = Run(sc, dsched.Replay(run.choices), frames)
                 if again.outcome() != out:
                     ctx.note(f"{sc['name']}: schedule replay diverged ({again.outcome()} vs {out})")
-            ctx.violation(f"{sc['name']}: {bad[0]}", {"scenario": sc, "schedule": run.choices, "violations": bad[:5]})
+            ctx.violation(f"{sc['name']}: {bad[0]}", {"scenario": sc, "schedule": run.choices, "violations": bad[:5]},
+                          classify(sc, bad))
         elif model:
             observed.setdefault(out, run.choices)
         return run
@@ -518,8 +594,8 @@ def run(ctx):
                          "oracle and looked up in the outcome set of the Lean block model")
     frames = Frames()
     bound = ctx.scale(2, 3)
-    cap = ctx.scale(150, 6000)
-    n_pct = ctx.scale(30, 1500)
+    cap = ctx.scale(150, 1500)
+    n_pct = ctx.scale(30, 400)
     # corpus first
     for name, c in corpus("C15"):
         case = c.get("case", c)
@@ -531,11 +607,16 @@ def run(ctx):
         ctx.evals()
         ctx.cover("corpus_cases")
         if bad:
-            ctx.violation(f"corpus {name}: {bad[0]}", case)
+            ctx.violation(f"corpus {name}: {bad[0]}", case, classify(case["scenario"], bad))
+    VARIANT.update(detect_variants(frames))
+    ctx.extra["variant"] = dict(VARIANT)
     batches = []
     for sc in scenarios(ctx):
         observed = {}
-        explore(ctx, sc, frames, bound, cap, n_pct, observed)
+        oracle_only = sc.get("oracle_only") or (sc.get("oracle_only_if_purging") and VARIANT["loses_buffered_request"])
+        explore(ctx, sc, frames, bound, cap, n_pct, observed, model=not oracle_only)
+        if oracle_only:
+            continue
         batches.append((sc, observed))
         ctx.sample("scenario", {"scenario": sc["name"], "outcomes": len(observed), "example": next(iter(observed), None)})
     check_model(ctx, batches)
@@ -544,8 +625,9 @@ def run(ctx):
 def search(ctx):
     """a theorem / generated obligation / correspondence broke: 3x volume on the real code, oracle only"""
     frames = Frames()
+    VARIANT.update(detect_variants(frames))
     for sc in scenarios(ctx):
-        explore(ctx, sc, frames, ctx.scale(2, 3), ctx.scale(700, 18000), ctx.scale(150, 4500), {}, model=False)
+        explore(ctx, sc, frames, ctx.scale(2, 3), ctx.scale(450, 4500), ctx.scale(90, 1200), {}, model=False)
         if ctx.violations:
             return
 
